@@ -685,7 +685,8 @@ class Class(CanContainImportsDocumentable):
             self._mro = compute_mro(self)
         except ValueError as e:
             self.report(str(e), 'mro')
-            self._mro = list(self.allbases(True))
+            # Each class once, in the order of first appearance: a base reached through two paths is still one base.
+            self._mro = list(dict.fromkeys(self.allbases(True)))
     
     def _init_constructors(self) -> None:
         """
